@@ -186,6 +186,7 @@ class Hidden:
 # a case: the real objects, the abstract state, the protocol lines
 
 _FORM_COUNTER = [0]
+ARRAY_FORMS = ("0-d array", "1-element array")
 
 
 def action_form(a, linear=False):
@@ -238,6 +239,11 @@ class Case:
         if extra:
             d.update(extra)
         return d
+
+    def known_now(self) -> set:
+        """the knowledge the real environment holds right now"""
+        kn = self.env.incomplete_game.are_values_known()
+        return {c for c in range(self.N) if bool(kn[c])}
 
     def keep_obs(self, arr, where: str):
         """A caller may keep what reset / step / unstep returned: an observation handed out earlier must keep showing what was
@@ -502,7 +508,15 @@ class Case:
         try:
             a_form, form_name = action_form(a) if valid else (a, "as-given")
             self.res.count(f"action-form:{form_name}")
-            out = (env.unstep if un else env.step)(a_form)
+            try:
+                out = (env.unstep if un else env.step)(a_form)
+            except Exception:       # noqa: BLE001
+                # an implementation may refuse array-valued actions outright (the signature says `int`); what it may not do is
+                # accept them and misbehave.  A refusal that left the knowledge untouched is retried with the plain int.
+                if form_name not in ARRAY_FORMS or self.known_now() != self.known():
+                    raise
+                self.res.count(f"action-form-refused:{form_name}")
+                out = (env.unstep if un else env.step)(a)
             ans = self.show_out(out)
             self.keep_obs(out[0], nm)
             if before_c07 is not None:
@@ -696,7 +710,13 @@ class Case:
         try:
             k_form, form_name = action_form(k, linear=True) if allowed else (k, "as-given")
             self.res.count(f"size-form:{form_name}")
-            out = lin.step(k_form)
+            try:
+                out = lin.step(k_form)
+            except Exception:       # noqa: BLE001
+                if form_name not in ARRAY_FORMS or self.known_now() != K:
+                    raise
+                self.res.count(f"size-form-refused:{form_name}")
+                out = lin.step(k)
             cid = int(out[4]["chosen_coalition"])
             chosen_idx = self.explorable.index(cid) if cid in self.explorable else 0
             self.register(K | {cid})
